@@ -11,6 +11,7 @@
 From Coq Require Import Relations PeanoNat List.
 From GW Require Import Base Upload UploadProofs Concurrent ConcurrentProofs.
 Local Open Scope N_scope.
+Local Open Scope list_scope.
 
 (** * The upload protocol: Create, Write..., Close (client.go:179-217) *)
 
@@ -47,6 +48,15 @@ Theorem C18_no_leak_partial : forall cf s,
   go_exited s = true /\ caller_finished cf s = true /\ rd_closed s = true.
 Proof. exact no_leak. Qed.
 Print Assumptions C18_no_leak_partial.
+
+(** Every maximal execution — one that cannot be continued — from a reachable state
+    has ended in a final state (and by well-foundedness every execution can be
+    continued only finitely often). *)
+Theorem C18_maximal_runs_end_final_partial : forall cf s s',
+  buffered cf = true -> reachable cf s -> clos_refl_trans _ (step cf) s s' ->
+  (forall s'', ~ step cf s' s'') -> final cf s' = true.
+Proof. exact maximal_runs_end_final. Qed.
+Print Assumptions C18_maximal_runs_end_final_partial.
 
 (** Close returns only after the server has answered, the exchange has failed or the
     context has ended. *)
@@ -154,6 +164,29 @@ Theorem C18_threads_alone_partial : forall (R : Type) (sched : list nat)
   view (grun s sched) i = view (grun s (repeat i (count_occ Nat.eq_dec sched i))) i.
 Proof. exact @threads_alone. Qed.
 Print Assumptions C18_threads_alone_partial.
+
+(** fs_local.go Create is such a program: Stat, createTemp in the target's directory,
+    io.Copy into the temporary file, Rename over the target.  Run alone it ends with
+    the answer and the tree of the one-step PUT of [Concurrent.sem] (which the harness
+    ties to the real handler), provided the temporary name is not taken ... *)
+Theorem C18_put_program_refines_partial : forall d l tmp s m,
+  tmp_fresh d tmp m ->
+  Nat.iter 4 lstep (put_prog d l tmp s, Some m) =
+  (PRet (snd (sem (FPut (d ++ [l]) s) m)), Some (fst (sem (FPut (d ++ [l]) s) m))).
+Proof. exact put_prog_refines. Qed.
+Print Assumptions C18_put_program_refines_partial.
+
+(** ... and so it does among other threads on disjoint roots, under any schedule of
+    primitive calls that lets it finish, whatever the others did in between. *)
+Theorem C18_put_concurrent_partial : forall sched (s : list (thread outc) * node) i p d l tmp c m,
+  thread_roots_disjoint (fst s) ->
+  nth_error (fst s) i = Some (p, put_prog d l tmp c) ->
+  sub p (snd s) = Some m -> tmp_fresh d tmp m ->
+  (4 <= count_occ Nat.eq_dec sched i)%nat ->
+  view (grun s sched) i =
+  Some (PRet (snd (sem (FPut (d ++ [l]) c) m)), Some (fst (sem (FPut (d ++ [l]) c) m))).
+Proof. exact put_concurrent. Qed.
+Print Assumptions C18_put_concurrent_partial.
 
 (** The workload of the correspondence check: whatever interleaving of the clients'
     requests the scheduler produces, every client gets the answers, and the served
